@@ -214,9 +214,23 @@ pub fn run_case(out: &mut Out, rng: &mut Rng, thorough: bool, case_no: u64) {
             sync_alive(&mut case);
         } else if r < 80 {
             let budget = if rng.chance(1, 2) { c::UNLIMITED } else { rng.range(0, 12) };
+            // C03: the chain being served before the ingestion opportunity
+            let before_height = c::stable_height();
+            let served: Vec<String> = c::main_chain_hashes();
             let obs = c::ingest(budget);
             out.emit(&format!("c ingest {}", budget), &obs);
             out.count(&format!("ingest:{}", obs));
+            if obs != "trap" {
+                // finality facts (C03): how many anchors were popped, is the new anchor on the chain that
+                // was being served, is a further advance still pending after an un-paused call
+                let (after_height, root, pending) = can::with_state(|s| {
+                    (s.stable_height(), hex::encode(can::state::get_block_hashes(s)[0].as_bytes()), s.unstable_blocks.verif_stable_child().is_some())
+                });
+                let k = (after_height - before_height) as usize;
+                let onchain = served.get(k).map(|h| *h == root).unwrap_or(false);
+                out.emit("c advance", &format!("popped={} onchain={} pending={}", k, onchain as u8, (pending && obs != "paused") as u8));
+                if k > 0 { out.count("advance:popped>0"); }
+            }
             paused = obs == "paused";
             if obs == "trap" {
                 // a native panic leaves partial effects behind (no rollback): the rest of the
